@@ -833,4 +833,126 @@ Proof.
   pose proof (update_parameters_total f_key f_tosize f_div f_key_nt f_tosize_nt [] [] (set_frames s fs') M (or_intror (conj eq_refl eq_refl)) (proj1 Sm) S2 S3 (set_frames s fs') eq_refl) as T.
   rewrite H in T. split; [apply T|]. apply (after_up_counts (set_frames s fs') s'); [exact Ne|exact T].
 Qed.
+
+(* parameter(): guards, then the tree edit (pure), then updateHeader *)
+Lemma api_parameter_factor : forall gname p s, p_name p <> [] -> p_type p <> TNone ->
+  api_parameter f_key f_tosize f_div gname p s =
+  update_header f_key f_tosize f_div true (set_groups s (tree_after (groups s) gname p)).
+Proof.
+  intros gname p s Nn Ht. unfold api_parameter.
+  assert (En : bstr_eqb (p_name p) [] = false).
+  { destruct (bstr_eqb (p_name p) []) eqn:E; [apply bstr_eqb_eq in E; contradiction|reflexivity]. }
+  rewrite En. unfold bind at 1. unfold ret at 1. unfold bind at 1.
+  replace ((match p_type p with TNone => throw RuntimeError | _ => ret tt end) s) with (@ROk state unit tt s)
+    by (destruct (p_type p); try reflexivity; contradiction).
+  unfold bind at 1. cbv [getS]. unfold bind at 1. unfold catch. unfold group_idx at 1. unfold tree_after.
+  destruct (find_idx (fun g0 => bstr_eqb (g_name g0) gname) (groups s) 0) as [i|] eqn:F.
+  - cbv [lift]. unfold bind at 1. cbv [getS]. unfold bind at 1.
+    pose proof (find_idx_bound _ _ _ _ _ F) as B. rewrite N.add_0_l in B.
+    destruct (at_in _ (groups s) i B) as [g Hg]. unfold group_at. rewrite Hg. cbv [lift]. unfold bind at 1.
+    rewrite (group_set_param_is_upsert g p Ht). cbv [lift]. unfold bind at 1. cbv [putS].
+    apply at_ok in Hg. destruct Hg as [_ Hg]. rewrite Hg. reflexivity.
+  - cbv [lift]. unfold groups_add. cbn [new_group g_name]. rewrite (find_last_none _ _ _ _ F).
+    cbv [bind lift putS]. unfold group_idx.
+    rewrite (find_after_append group g_name (groups s) (new_group gname []) gname) by exact F.
+    rewrite F. cbn [new_group g_name].
+    assert (E : bstr_eqb gname gname = true) by (apply bstr_eqb_eq; reflexivity). rewrite E.
+    cbv [getS]. cbn [set_groups groups]. unfold group_at.
+    assert (A : at_ (groups s ++ [new_group gname []]) (nlen (groups s)) = Ok (new_group gname [])).
+    { apply at_ok. unfold nlen. rewrite app_length. cbn [length]. split; [lia|]. rewrite Nat2N.id, nth_error_app2 by lia. rewrite Nat.sub_diag. reflexivity. }
+    rewrite A. rewrite (group_set_param_is_upsert _ p Ht). unfold nlen. rewrite Nat2N.id, replace_last.
+    cbn [new_group g_params g_set_params upsert find_idx app g_name g_desc g_lock set_groups hdr pro frames]. reflexivity.
+Qed.
+
+(* C10 for parameter(): a throw leaves the object as it was whenever the tree the call produces still has well-typed
+   mandatory parameters (i.e. the call does not retype one of them: the known finding is exactly the other case) *)
+Theorem api_parameter_throw_unchanged : forall gname p s e s',
+  (p_name p <> [] -> p_type p <> TNone -> MT (tree_after (groups s) gname p)) ->
+  api_parameter f_key f_tosize f_div gname p s = RThrow e s' -> s' = s.
+Proof.
+  intros gname p s e s' M H.
+  destruct (list_eq_dec N.eq_dec (p_name p) []) as [En|Nn].
+  - rewrite (api_parameter_unnamed _ _ _ gname p s En) in H. injection H as _ <-. reflexivity.
+  - assert (D : p_type p = TNone \/ p_type p <> TNone) by (destruct (p_type p); [right; discriminate..|left; reflexivity]).
+    destruct D as [Ty|Ht].
+    + rewrite (api_parameter_untyped _ _ _ gname p s Nn Ty) in H. injection H as _ <-. reflexivity.
+    + exfalso. rewrite (api_parameter_factor gname p s Nn Ht) in H.
+      set (s1 := set_groups s (tree_after (groups s) gname p)) in *.
+      assert (M1 : MT (groups s1)) by (exact (M Nn Ht)).
+      clearbody s1.
+      pose proof (st_update_header f_key f_tosize f_div f_key_nt f_tosize_nt (fun x => MT (groups x)) (fun x Hx => Hx) (fun x h Hx => Hx) true s1 M1) as T.
+      rewrite H in T. exact T.
+Qed.
+
+(* ---- point(frames) ---- *)
+Lemma add_partial_total : forall idx news olds, (length olds <= length news)%nat ->
+  (forall n, In n news -> idx < nlen (fr_pts n)) ->
+  snd (add_point_col_partial idx news olds) = None /\ length (fst (add_point_col_partial idx news olds)) = length olds.
+Proof.
+  intros idx news olds. revert news. induction olds as [|o ot IH]; intros news L H; [destruct news; cbn; auto|].
+  destruct news as [|n nt]; [cbn in L; lia|]. cbn [add_point_col_partial].
+  destruct (at_in _ (fr_pts n) idx (H n (or_introl eq_refl))) as [p E]. rewrite E.
+  destruct (IH nt) as [A B]; [cbn in L; lia|intros m Hm; apply H; right; exact Hm|].
+  destruct (add_point_col_partial idx nt ot) as [rest e]. cbn [fst snd] in *. split; [exact A|]. cbn [length]. rewrite B. reflexivity.
+Qed.
+
+Lemma point_cols_total : forall k idx news s, (length (frames s) <= length news)%nat ->
+  (forall n, In n news -> idx + N.of_nat k <= nlen (fr_pts n)) ->
+  exists s', point_cols k idx news s = ROk tt s' /\ groups s' = groups s /\ hdr s' = hdr s /\ pro s' = pro s /\
+             length (frames s') = length (frames s).
+Proof.
+  induction k as [|k IH]; intros idx news s L H; cbn [point_cols].
+  - exists s. cbv [ret]. auto.
+  - unfold bind at 1. cbv [getS].
+    destruct (add_partial_total idx news (frames s) L) as [A B]; [intros n Hn; specialize (H n Hn); lia|].
+    destruct (add_point_col_partial idx news (frames s)) as [fs e]. cbn [fst snd] in A, B. subst e.
+    unfold bind at 1. cbv [putS]. unfold bind at 1. cbv [ret].
+    destruct (IH (idx + 1) news (set_frames s fs)) as [s' [E [G [Hh [P Len]]]]].
+    + cbn [frames set_frames]. rewrite B. exact L.
+    + intros n Hn. specialize (H n Hn). lia.
+    + exists s'. split; [exact E|]. cbn [groups hdr pro frames set_frames] in *. rewrite Len, B. auto.
+Qed.
+
+(* C10 for point(frames): any throw leaves the object as it was *)
+Theorem api_point_col_throw_unchanged : forall news s e s',
+  MT (groups s) ->
+  (forall n n0, nth_error news 0 = Some n0 -> In n news -> nlen (fr_pts n0) <= nlen (fr_pts n)) ->
+  (forall k s1, point_cols k 0 news s = ROk tt s1 -> small_frames (frames s1)) ->
+  api_point_col f_key f_tosize f_div news s = RThrow e s' -> s' = s.
+Proof.
+  intros news s e s' M Hu Sm H.
+  destruct (MT_lookup _ nm_POINT nm_LABELS KStrs M) as [pL [LL KL]]; [in_mand|].
+  assert (RL : exists labels, r_strs (groups s) nm_POINT nm_LABELS = Ok labels).
+  { unfold r_strs. rewrite LL. cbn [obind]. unfold kind_ok, type_ok in KL. apply andb_prop in KL. destruct KL as [T _].
+    unfold values_as_string. destruct (p_type pL); try discriminate. eauto. }
+  destruct RL as [labels RL].
+  rewrite (api_point_col_doc _ _ _ news s labels RL Hu) in H.
+  destruct (doc_pointcol (nlen (frames s)) labels news) as [x|] eqn:D; [injection H as _ <-; reflexivity|].
+  exfalso. unfold doc_pointcol in D.
+  destruct ((nlen news =? 0) || negb (nlen news =? nlen (frames s))) eqn:C; [discriminate|].
+  apply Bool.orb_false_iff in C. destruct C as [C0 C1]. apply Bool.negb_false_iff in C1. apply N.eqb_eq in C1. apply N.eqb_neq in C0.
+  destruct news as [|n0 nt]; [discriminate|].
+  unfold cols_and_update in H.
+  destruct (point_cols_total (length (fr_pts n0)) 0 (n0 :: nt) s) as [s1 [E [G [Hh [P Len]]]]].
+  - unfold nlen in C1. lia.
+  - intros n Hn. specialize (Hu n n0 eq_refl Hn). unfold nlen in *. lia.
+  - unfold bind in H. rewrite E in H. specialize (Sm _ s1 E).
+    assert (Ne : frames s1 <> []) by (intros Z; rewrite Z in Len; unfold nlen in *; cbn [length] in *; lia).
+    assert (B : npts0 s1 [] < 2147483648 /\ nan0 s1 [] < 2147483648).
+    { destruct Sm as [_ Sm]. unfold npts0, nan0. destruct (frames s1) as [|f0 t]; [contradiction|exact Sm]. }
+    assert (M1 : MT (groups s1)) by (rewrite G; exact M).
+    pose proof (update_parameters_total f_key f_tosize f_div f_key_nt f_tosize_nt [] [] s1 M1 (or_intror (conj eq_refl eq_refl)) (proj1 Sm) (proj1 B) (proj2 B) s1 eq_refl) as T.
+    rewrite H in T. exact T.
+Qed.
+
+(* C10 for point(name) / analog(name) on an object without frames: the declaration goes through the updater alone *)
+Theorem declare_without_frames_never_throws : forall nP nA s e s',
+  MT (groups s) -> frames s = [] -> npts0 s nP < 2147483648 -> nan0 s nA < 2147483648 ->
+  update_parameters f_key f_tosize f_div nP nA s <> RThrow e s'.
+Proof.
+  intros nP nA s e s' M F S2 S3 E.
+  assert (S1 : nlen (frames s) < 2147483648) by (rewrite F; unfold nlen; cbn; lia).
+  pose proof (update_parameters_total f_key f_tosize f_div f_key_nt f_tosize_nt nP nA s M (or_introl F) S1 S2 S3 s eq_refl) as T.
+  rewrite E in T. exact T.
+Qed.
 End Calls.
